@@ -1,6 +1,7 @@
 package props
 
 import (
+	"bufio"
 	"bytes"
 	"fmt"
 	"math"
@@ -24,8 +25,10 @@ import (
 // C06 — malformed input yields errors, never panics, hangs or runaway allocation.
 
 type c06env struct {
-	m  monitor.Meter
-	rb *avro.ReadBuf
+	m          monitor.Meter
+	rb         *avro.ReadBuf
+	padTick    int
+	readerTick int
 }
 
 var c06e *c06env
@@ -170,7 +173,24 @@ func c06genPair(c *core.Ctx, r *rand.Rand) *c06pair {
 	return nil
 }
 
+var c06pads = [][]byte{bytes.Repeat([]byte{0x00}, 32), bytes.Repeat([]byte{0x81}, 32), bytes.Repeat([]byte{0xff}, 40)}
+
+// readAndSkip presents the input as it is and, every third time, followed by 32-40 bytes of further data
+// (a decoder that looks ahead must behave no worse when there is something to look at).
 func (e *c06env) readAndSkip(c *core.Ctx, p *c06pair, class string, input []byte) bool {
+	if !e.readAndSkip1(c, p, class, input) {
+		return false
+	}
+	e.padTick++
+	if e.padTick%3 != 0 || len(input) > 1<<16 {
+		return true
+	}
+	c.Count("inputs-with-trailing-data", 1)
+	padded := append(append(make([]byte, 0, len(input)+40), input...), c06pads[(e.padTick/3)%len(c06pads)]...)
+	return e.readAndSkip1(c, p, class+"+trailing-data", padded)
+}
+
+func (e *c06env) readAndSkip1(c *core.Ctx, p *c06pair, class string, input []byte) bool {
 	rt := p.t.RT()
 	_, ok := e.call(c, "Codec.Read", class, input, true, p.factor, func() error {
 		v := reflect.New(rt)
@@ -236,14 +256,85 @@ func (e *c06env) readFile(c *core.Ctx, p *c06pair, class string, input []byte) b
 		c.Count("skipped.zero-width-schema", 1)
 		return true
 	}
+	e.readerTick++
+	return e.readFileVia(c, p, class, input, e.readerTick%4)
+}
+
+// readFileVia reads the input through one of the standard library's concrete reader types (implementations
+// like to special-case them).
+func (e *c06env) readFileVia(c *core.Ctx, p *c06pair, class string, input []byte, kind int) bool {
 	rt := p.t.RT()
 	_, ok := e.call(c, "ReadFile", class, input, true, p.factor, func() error {
-		return avro.ReadFile(bytes.NewReader(input), reflect.New(rt).Interface(), func(val unsafe.Pointer, rb *avro.ResourceBank) error {
+		var rd avro.Reader
+		switch kind {
+		case 0:
+			rd = bytes.NewReader(input)
+		case 1:
+			rd = bytes.NewBuffer(append([]byte(nil), input...))
+		case 2:
+			rd = strings.NewReader(string(input))
+		default:
+			rd = bufio.NewReader(bytes.NewReader(input))
+		}
+		return avro.ReadFile(rd, reflect.New(rt).Interface(), func(val unsafe.Pointer, rb *avro.ResourceBank) error {
 			rb.Close()
 			return nil
 		})
 	})
 	return ok
+}
+
+// c06bigFile: one block of a few MiB (a record holding one bytes value), cut and with its declared length
+// inflated, through every reader type.
+func (e *c06env) c06bigFile(c *core.Ctx, r *rand.Rand) bool {
+	sch, _ := refavro.ParseSchema([]byte(`{"type":"record","name":"big","fields":[{"name":"b","type":"bytes"}]}`))
+	t := gen.StructOf(gen.Fld("B", "b", false, gen.Leaf(gen.KBytes)))
+	codec, err := buildLibCodec(sch, t.RT())
+	if err != nil {
+		c.Violate("build", err.Error(), nil)
+		return false
+	}
+	p := &c06pair{ds: &gen.DataSchema{S: sch}, t: t, codec: codec, skipAll: codec, factor: 1}
+	n := 1<<20 + 1<<19 + r.IntN(2<<20)
+	data := make([]byte, n)
+	for k := range data {
+		data[k] = byte(r.IntN(256))
+	}
+	payload := append(refavro.AppendLong(nil, int64(n)), data...)
+	file := rebuildFile(sch.JSON(), "null", []int64{1}, [][]byte{payload})
+	for kind := 0; kind < 4; kind++ {
+		if !e.readFileVia(c, p, "big-block-valid", file, kind) {
+			return false
+		}
+		for _, cut := range []int{len(file) - 1, len(file) - 16, len(file) - 17, 1<<20 + 100 + r.IntN(1<<19), len(file) / 2, 1 << 20, 1<<20 + 1} {
+			if cut > 0 && cut < len(file) {
+				c.Count("big-block.cuts", 1)
+				if !e.readFileVia(c, p, "big-block-truncation", file[:cut], kind) {
+					return false
+				}
+			}
+		}
+	}
+	// the block's declared length inflated beyond what the input holds
+	_, blocks, _ := containerSites(file)
+	for _, b := range blocks {
+		_, n1, _, err1 := refavro.ReadLong(file[b.Start:])
+		_, n2, _, err2 := refavro.ReadLong(file[b.Start+n1:])
+		if err1 != nil || err2 != nil {
+			continue
+		}
+		st := refavro.Site{Off: b.Start + n1, Len: n2, Kind: "blocksize"}
+		for _, extra := range []int64{1, 1 << 20, 1<<20 + 5, 3 << 20, 1 << 24, 1 << 30} {
+			mut := mutateSite(file, st, refavro.AppendLong(nil, int64(len(payload))+extra))
+			for kind := 0; kind < 4; kind++ {
+				c.Count("big-block.inflated-lengths", 1)
+				if !e.readFileVia(c, p, "big-block-inflated-length", mut, kind) {
+					return false
+				}
+			}
+		}
+	}
+	return true
 }
 
 // containerSites locates the metadata and block varints of a container file.
@@ -585,6 +676,11 @@ func runC06(c *core.Ctx, i int) {
 				return
 			}
 		}
+		if i%45 == 3 {
+			if !e.c06bigFile(c, r) {
+				return
+			}
+		}
 		c.Shape("ftrunc|" + codec + "|" + p.ds.S.Shape())
 	case 4: // random noise, bit flips, splices
 		p := c06genPair(c, r)
@@ -732,6 +828,24 @@ func runC06(c *core.Ctx, i int) {
 					return
 				}
 			}
+			if m == 1 {
+				// a complete timestamp followed by a run of one filler byte (continuation bytes, invalid UTF-8, NULs,
+				// digits, ...) of every awkward length: error paths format their input too
+				for _, n := range []int{1, 2, 3, 8, 31, 32, 33, 47, 48, 49, 50, 63, 64, 65, 100, 255, 256, 1000} {
+					for _, fill := range []byte{0x80, 0xbf, 0xff, 0x00, ' ', 'x', '0', 'Z', 0xc3, 0xe2, '+', ':'} {
+						txt := append([]byte(ts), bytes.Repeat([]byte{fill}, n)...)
+						in := append(refavro.AppendLong(nil, int64(len(txt))), txt...)
+						c.Count("timestamp-with-tail", 1)
+						if _, ok := e.call(c, "time.StringCodec.Read", "timestamp-with-tail", in, true, 1, func() error {
+							var t avrotimeTime
+							rb.Reset(in)
+							return avrotime.StringCodec{}.Read(rb, unsafe.Pointer(&t))
+						}); !ok {
+							return
+						}
+					}
+				}
+			}
 			h := c06hostile[r.IntN(len(c06hostile))]
 			in := append(append([]byte{}, h...), ts...)
 			if r.IntN(3) == 0 {
@@ -805,7 +919,7 @@ func init() {
 		ID:        "C06",
 		Level:     "exploration",
 		Technique: "runtime monitoring: hostile inputs (structured mutation of every length/count/selector/size varint, truncation at every offset, noise, wrong-shape schemas) through every reading entry point in child processes with a pre-call input journal; per-call monitors for panic, thread CPU time and heap bytes allocated; checkptr/ASan variants",
-		Rule: "nine input families from (VERIF_SEED, i): record-field mutation, record truncation, container-field mutation (metadata/block count/length, re-compressed hostile payloads), file truncation and header variants, noise/bit flips/splices, schema text mutation and wrong-shape schemas through Schema.Codec, spec-legal adversarial arrays (thousands of one-item blocks), time/date codecs with hostile lengths, FileSchema on disk; " +
+		Rule: "nine input families from (VERIF_SEED, i): record-field mutation, record truncation, container-field mutation (metadata/block count/length, re-compressed hostile payloads), file truncation and header variants, noise/bit flips/splices, schema text mutation and wrong-shape schemas through Schema.Codec, spec-legal adversarial arrays (thousands of one-item blocks), time/date codecs with hostile lengths, FileSchema on disk; record inputs are also presented with 32-40 bytes of further data after them; files are read through bytes.Reader, bytes.Buffer, strings.Reader and bufio in rotation; one block of 1.5-3.5 MiB cut at seven positions and with its declared length inflated by 1 B..1 GiB through each reader type; complete timestamps followed by runs (1..1000) of one filler byte; " +
 			"distinct_nontrivial = distinct (family, schema shape) combinations driven",
 		Explanation: "Oracle: result or error, nothing else. A panic is recovered and recorded; a fatal error/OOM/signal kills the child and the orchestrator attributes it to the journalled input. CPU per call (getrusage RUSAGE_THREAD on a locked thread) must stay under 10 s; heap bytes allocated during the call (runtime.MemStats.TotalAlloc delta) must stay under 1 MiB + 4096 x len(input) x max(1, largest target element size/64) - linear, as the property says.",
 		Assumptions: []string{"allocation/termination clauses are evaluated on schemas whose records and array items occupy at least one byte on the wire (array<null> may legally declare 2^62 items in three bytes)", "the wall-clock watchdog only yields 'inconclusive'"},
